@@ -55,6 +55,41 @@ struct Case {
     keys: Vec<(usize, Enc, usize)>,
     mutation: Mutation,
     pos: usize,
+    /// what the same thread was made to parse (and refuse) immediately before this case: 0 nothing,
+    /// 1 a key table holding a key with a float member (cannot be put in canonical form),
+    /// 2 a key table with a wrong identifier, 3 a key table with an unparsable key
+    prelude: u8,
+}
+
+/// A hostile document parsed on this thread right before the judged one: whatever the library makes
+/// of it must leave no trace in what follows.
+fn run_prelude(kind: u8, out: &mut CaseOut) {
+    if kind == 0 {
+        return;
+    }
+    let mut kj = key(1).key_json(Enc::Default);
+    let id = keyid_of(&kj);
+    let listed = match kind {
+        1 => {
+            kj.set("weight", J::F(0.5));
+            kj.at_mut("keyval").set("x-ratio", J::F(1.25));
+            id
+        }
+        2 => flip_hex(&id, 5),
+        _ => {
+            kj.at_mut("keyval").set("public", J::U(7));
+            id
+        }
+    };
+    let mut rs = root_signed(1, false, FAR, &RootKeys::simple());
+    rs.set("keys", J::O(vec![(listed, kj)]));
+    let doc = envelope(rs, vec![]);
+    let r = serde_json::from_slice::<Signed<Root>>(&render(&doc, Style::Compact));
+    out.evals += 1;
+    out.h(format!("prelude={kind}:{}", if r.is_ok() { "accepted" } else { "refused" }));
+    if r.is_ok() && kind == 2 {
+        out.viol("bad-keyid-accepted:prelude", "root with a bit-flipped key identifier parsed".to_string());
+    }
 }
 
 fn key_json_with_extras(k: usize, enc: Enc, extras: usize) -> J {
@@ -185,7 +220,8 @@ fn gen_cases(cfg: &Cfg) -> Vec<Case> {
                                 }
                             }
                             if ok {
-                                v.push(Case { table, keys, mutation: m, pos });
+                                let prelude = (v.len() % 4) as u8;
+                                v.push(Case { table, keys, mutation: m, pos, prelude });
                             }
                         }
                     }
@@ -214,6 +250,7 @@ fn gen_cases(cfg: &Cfg) -> Vec<Case> {
             keys,
             mutation: *r.pick(&MUTS),
             pos: r.usize(8),
+            prelude: r.usize(4) as u8,
         });
     }
     v
@@ -221,6 +258,7 @@ fn gen_cases(cfg: &Cfg) -> Vec<Case> {
 
 fn run_case(c: &Case) -> CaseOut {
     let mut out = CaseOut::default();
+    run_prelude(c.prelude, &mut out);
     let (members, must_parse) = build_table(c);
     let table = J::O(members.clone());
     // embed the table
@@ -310,7 +348,7 @@ fn run_case(c: &Case) -> CaseOut {
         "table" => tname.as_str(), "mutation" => format!("{:?}", c.mutation), "position" => c.pos,
         "keys(pool index, encoding, extras variant)" => format!("{:?}", c.keys),
         "identifiers_as_listed" => J::A(members.iter().map(|(i, _)| J::S(i.clone())).collect()),
-        "must_parse" => must_parse,
+        "must_parse" => must_parse, "hostile_document_parsed_on_this_thread_just_before" => c.prelude as u64,
         "parse_result" => match &parsed_ok { Ok(()) => "ok".to_string(), Err(e) => e.clone() },
     });
     out
@@ -336,12 +374,15 @@ pub fn run(cfg: &Cfg) -> i32 {
     for x in 0..4 {
         required.push(format!("extras={x}"));
     }
+    for p in ["prelude=1:refused", "prelude=2:refused", "prelude=3:refused"] {
+        required.push(p.to_string());
+    }
     finish(
         cfg,
         ev,
         Finish {
             level: "exploration",
-            rule: "key tables of 1..4 keys (ed25519 hex; ecdsa as PEM, as hex, and with the old key type; rsa PEM; with 4 variants of unknown extra members in the key and in keyval) embedded in a root document and in delegations of a targets document; every mutation {bit flip, swap with a foreign id, swap two, truncate, extend, upper-case, mixed-case, duplicate same spelling, duplicate other case, alter key content under the old id} at every position for tables of 1..3 keys, plus seeded random tables of 1..4 keys; parsed with serde_json::from_slice::<Signed<Root|Targets>>. Identifier oracle = SHA-256 of the reference canonical form. Also: Key parsed/re-serialised/re-parsed and Key::from_str on the public key text. Non-trivial = a mutation is applied.",
+            rule: "key tables of 1..4 keys (ed25519 hex; ecdsa as PEM, as hex, and with the old key type; rsa PEM; with 4 variants of unknown extra members in the key and in keyval) embedded in a root document and in delegations of a targets document; every mutation {bit flip, swap with a foreign id, swap two, truncate, extend, upper-case, mixed-case, duplicate same spelling, duplicate other case, alter key content under the old id} at every position for tables of 1..3 keys, plus seeded random tables of 1..4 keys; parsed with serde_json::from_slice::<Signed<Root|Targets>>. Identifier oracle = SHA-256 of the reference canonical form. Three quarters of the cases are preceded, on the same thread, by a hostile root document that the parser refuses (a key with float members, a wrong identifier, an unparsable key): no trace of it may change the verdict or the identifiers that follow. Also: Key parsed/re-serialised/re-parsed and Key::from_str on the public key text. Non-trivial = a mutation is applied.",
             assumptions: vec!["SHA-256 from aws-lc-rs; reference canonical form from the harness".into()],
             required_hist: required,
             min_evaluations: 5000,
